@@ -432,6 +432,14 @@ func findPartStores(s interface{}) *partstore.NamedPartStores {
 			if stores := findPartStores(inner); stores != nil {
 				return stores
 			}
+		} else if field.Kind() == reflect.Struct && field.CanAddr() && reflect.PointerTo(field.Type()).Implements(storageType) {
+			// A storage embedded by value (the middlewares embed
+			// delegator.DelegatingStorage) implements Storage through its
+			// pointer: recurse into its address.
+			inner := reflect.NewAt(field.Type(), unsafe.Pointer(field.UnsafeAddr())).Interface()
+			if stores := findPartStores(inner); stores != nil {
+				return stores
+			}
 		}
 	}
 	return nil
